@@ -64,3 +64,18 @@ Example C02_nonvacuous :
   snd (lb_begin cfg s1 7 {| h_xff := []; h_xri := []; h_remote := [] |}) = (0, 2)
   /\ snd (lb_begin cfg s2 7 {| h_xff := []; h_xri := []; h_remote := [] |}) = (1, 4).
 Proof. vm_compute. split; reflexivity. Qed.
+
+From Helios Require Import Gen.HealthGen Proofs.HealthRefine.
+
+(* The gate IS the source: IsBackendHealthy / MarkBackendUnhealthy of loadbalancer.go as go2coq regenerates them on every run
+   (Gen/HealthGen.v) answer and update what the model's is_healthy / mark_unhealthy answer and update. *)
+Theorem C02_gate_is_source :
+  forall s b, lb_IsBackendHealthy mkLoadBalancer (abs_be b) (now s)
+              = (abs_be (if negb (bflag b) && (buntil b <? now s) then set_flag true b else b), fst (is_healthy s b)).
+Proof. exact is_healthy_refines. Qed.
+Print Assumptions C02_gate_is_source.
+
+Theorem C02_ejection_is_source :
+  forall b now d, fst (lb_MarkBackendUnhealthy mkLoadBalancer (abs_be b) now d) = abs_be (set_until (now + d) (set_flag false b)).
+Proof. exact mark_refines. Qed.
+Print Assumptions C02_ejection_is_source.
